@@ -189,12 +189,16 @@ impl Mode {
 
     /// Convenience function to push a value onto the stack
     pub fn push_value(&self, block: &mut Block, value: Expression) -> Result<(), Error> {
-        match self {
-            Mode::X86 => block.assign(self.sp(), Expr::sub(self.sp().into(), expr_const(4, 32))?),
-            Mode::Amd64 => block.assign(self.sp(), Expr::sub(self.sp().into(), expr_const(8, 64))?),
-        };
+        // The stack pointer moves by the size of the value pushed (a 16-bit
+        // push moves it by 2), and a value which mentions the stack pointer
+        // (push esp) is the one before the stack pointer changes.
+        let address = Expr::sub(
+            self.sp().into(),
+            expr_const((value.bits() / 8) as u64, self.bits()),
+        )?;
 
-        block.store(self.sp().into(), value);
+        block.store(address.clone(), value);
+        block.assign(self.sp(), address);
         Ok(())
     }
 }
